@@ -5,6 +5,9 @@
              with the v1 context only, DB blob opens with the v1 context only, decoded
              document), marker scan of every file of the state directory, mode bits, KEK uses
              - compared with the symbolic model (Server/Crypto.v) run on the database model.
+             Some calls have their save REFUSED by the file system (HOp false): error, the
+             pre-call state stays served, the file is untouched, no KEK use; in a third of the
+             histories the key service is down between opens.
              The handle is dropped and the file REOPENED with the same key at random points
              (HRe): one KEK use per reopen, none by any call incl. the first write after it.
    - Opens:  a session of db.Open attempts IN ONE PROCESS on one path, every attempt made
